@@ -129,7 +129,7 @@ def tasks(prop, tier="quick", seed=0, known_labels=None):
         for cfg in (S, SC, COMP, REPL, HYB):
             for fam in (("xy", "comp") if quick else ("sx", "xy", "mix", "comp")):
                 big = fam == "comp"
-                gen(cfg, fam, "gen_tree", "C14", shards=2, denom=(7000 if big else 2000) if quick else (600 if big else 120),
+                gen(cfg, fam, "gen_tree", "C14", shards=2, denom=(10000 if big else 2000) if quick else (600 if big else 120),
                     rand=None if quick else {"count": 300, "maxlen": 30})
         for cfg in (SR, HYB_A):
             gen(cfg, "xy", "gen_tree", "C14", shards=2, denom=3000 if quick else 300)
@@ -137,7 +137,7 @@ def tasks(prop, tier="quick", seed=0, known_labels=None):
     elif prop == "C15":
         for cfg in (S, SC, COMP, HYB, REPL):
             for fam in (("comp",) if quick else ("comp", "xy")):
-                gen(cfg, fam, "gen_diamond", "C15", shards=1 if quick else 4, denom=50 if quick else 3)
+                gen(cfg, fam, "gen_diamond", "C15", shards=1 if quick else 4, denom=70 if quick else 3)
                 gen(cfg, fam, "gen_split", "C15", shards=1 if quick else 4, denom=2 if quick else 1, gen_kwargs={"maxadds": 2 if quick else 3})
                 gen(cfg, fam, "gen_triple", "C15", gen_kwargs={"count": 150 if quick else 3000})
 
